@@ -235,7 +235,7 @@ LEVEL_TEXT = {
     "C18": "stateful property-based search probing every size / emptiness / exhaustion query against the export of a clone at every step",
     "C03": "property-based search over valid model inputs with a two-directional validity predicate (encoder view tiles [0,2^P); decoder view inverts it on all / sampled quantiles)",
     "C05": "differential property-based search: every representation of a generated model reduced to its triple list and compared with the encoder view",
-    "C19": "property-based search with hostile constructor inputs; accepted models must pass the C03 predicate",
+    "C19": "property-based search with hostile constructor inputs; accepted models must pass the C03 predicate; plus a Hypothesis-driven search over the Python model constructors (behavioural C03 oracle through the coders)",
     "C10": "robustness property-based search (fuzz-style): any words, any valid models, all decoders; oracle = no panic / termination / symbol in support / only documented errors",
     "C09": "stateful property-based search with fault injection (out-of-support symbols, bounded and failing sinks) against the recorded valid history",
     "C20": "fuzz-style property-based search over safe-API call sequences in a checked build (debug assertions + overflow checks make std's unsafe-precondition violations and wrap-dependent arithmetic visible); libFuzzer + AddressSanitizer in the thorough tier",
@@ -258,7 +258,7 @@ TECHNIQUE = {
     "C18": "stateful property-based testing with an invariant probe after every step (query == length of the export of a clone)",
     "C03": "property-based testing with a validity predicate over generated model inputs",
     "C05": "differential property-based testing across model representations",
-    "C19": "property-based testing with hostile inputs (robustness oracle: reject cleanly or build a valid model)",
+    "C19": "property-based testing with hostile inputs (robustness oracle: reject cleanly or build a valid model), Rust constructors by the byte-string engine and Python constructors by Hypothesis",
     "C10": "property-based robustness testing (totality + membership oracle) over garbage and mutated valid streams",
     "C09": "stateful property-based testing with injected faults (impossible symbols, failing writes)",
     "C20": "fuzzing / property-based testing with a process-level oracle (UB checks, overflow checks, sanitizers)",
